@@ -3,3 +3,4 @@ pub mod denote;
 pub mod encode;
 pub mod val;
 pub mod dist;
+pub mod md5;
